@@ -23,7 +23,9 @@ import (
 	"github.com/TimothyStiles/poly/io/uniprot"
 	"github.com/TimothyStiles/poly/primers"
 	"github.com/TimothyStiles/poly/random"
+	"github.com/TimothyStiles/poly/seqhash"
 	"github.com/TimothyStiles/poly/transform/codon"
+	"github.com/TimothyStiles/poly/transform/variants"
 )
 
 func report(name string, ok bool, detail string) {
@@ -292,6 +294,30 @@ func main() {
 		{"C14-hash-comment", func() (bool, string) {
 			s := gff.Parse([]byte("##gff-version 3\n##sequence-region s 1 1\n#c\n###\n##FASTA\n>s\nA\n"))
 			return s.Sequence == "A" && len(s.Features) == 0, fmt.Sprintf("sequence %q, %d features", s.Sequence, len(s.Features))
+		}},
+		{"C11-variants-overflow", func() (bool, string) {
+			v, err := variants.AllVariantsIUPAC(strings.Repeat("N", 32))
+			return err != nil, fmt.Sprintf("32 N's: %d variants, err=%v (want an error: 4^32 variants cannot be enumerated)", len(v), err)
+		}},
+		{"C05-unicode-fold", func() (bool, string) {
+			_, err := seqhash.Hash("AC\u017fG", "DNA", false, false)
+			_, err2 := seqhash.Hash("M\u0131K", "PROTEIN", false, false)
+			return err != nil && err2 != nil, fmt.Sprintf("U+017F in DNA: err=%v; U+0131 in protein: err=%v", err, err2)
+		}},
+		{"C20-errcap0-sequential", func() (bool, string) {
+			doc := "<uniprot><entry><accession>P1</accession><name>N1</name><sequence>MK</sequence></entry><entry><accession>P2</acc"
+			entries := make(chan uniprot.Entry)
+			errs := make(chan error)
+			go uniprot.Parse(strings.NewReader(doc), entries, errs)
+			n := 0
+			for range entries {
+				n++
+			}
+			ne := 0
+			for range errs {
+				ne++
+			}
+			return ne >= 1, fmt.Sprintf("unbuffered channels, entries drained first: %d entries, %d errors, both closed", n, ne)
 		}},
 	}
 	for _, p := range probes {
